@@ -8,10 +8,7 @@ package main
 // readercontent[p] for *bytes.Reader / *os.File handles;
 // fsexists[path], fssize[path], fscontent[path] for the file system (keyed by path identity).
 
-import (
-	"go/types"
-	"strings"
-)
+import "go/types"
 
 func (x *Exec) ghostSel(st *State, name string, idx *Term) *Term {
 	return Select(st.ghostArr(name, SInt), idx)
@@ -44,7 +41,7 @@ func init() {
 		owned := true
 		if b.Arr != nil {
 			b.Arr.walk(func(t *Term) {
-				if t.Op == "var" && len(t.Name) > 2 && t.Name[0] == 'H' && t.Name[1] >= '0' && t.Name[1] <= '9' && strings.Contains(t.Name, "_") {
+				if t.Op == "var" && isHeapArrayVar(t.Name) {
 					owned = false
 				}
 			})
